@@ -275,6 +275,12 @@ func (m *urlModule) createURLPrototype() *goja.Object {
 		return u.String()
 	}, func(u *nodeURL, arg goja.Value) {
 		u.url = m.parseURL(arg.String(), true)
+		if u.searchParams != nil {
+			u.searchParams = parseSearchQuery(u.url.RawQuery)
+			if u.searchParams == nil {
+				u.searchParams = make(searchParams, 0)
+			}
+		}
 	})
 
 	// pathname
